@@ -66,6 +66,7 @@ type Step struct {
 	D    int64    `json:"d,omitempty"`    // open/unary: deadline in ms (0 = none); tick: ms
 	Gate bool     `json:"gate,omitempty"` // unary: the server handler waits for "hu"
 	Ctx  string   `json:"ctxk,omitempty"` // open/unary: the kind of caller context (see newCtx)
+	Deaf bool     `json:"deaf,omitempty"` // unary / cli with gate: the gated server method ignores its context
 	At   string   `json:"at,omitempty"`   // open: the caller's context ends INSIDE NewStream's transport Write: "after-write" (cancelled right after the transport accepted the opener) | "after-write-deadline" (the deadline D passes there) | "blocked" (the Write is held up, the caller cancels, the Write is released)
 	H    *HOp     `json:"h,omitempty"`
 	Env  *EnvSpec `json:"env,omitempty"` // peer / cli: scripted envelope (Call = index of the call whose id it carries)
@@ -102,6 +103,8 @@ type cwRig struct {
 	mu            sync.Mutex
 	sendWFailed   map[int]bool         // calls with an operation that failed with a transport write error (see classFor)
 	keepAlive     []context.CancelFunc // cancel functions of inner contexts (released when the scenario is over)
+	urun          int                  // unary handler invocations that have not returned
+	udeaf         map[int64]bool       // gated unary handlers that ignore their context
 	wireMu        sync.Mutex
 	c2sWire       []*Rpc        // the client\'s envelopes in the order they were put on the wire
 	holdTrailer   chan struct{} // non-nil: the next OutTrailer stats event waits for it
@@ -287,19 +290,46 @@ func (r *cwRig) streamHandler(kind string, s grpc.ServerStream) error {
 	}
 }
 
+// mdMD: the metadata of a token. Tokens 9001.. are value / key classes a stricter library (grpc-go's metadata
+// validation) would refuse; goat carries keys and values as opaque strings, so none of them may cost an envelope.
 func mdMD(tok int64) metadata.MD {
-	if tok == 0 {
+	switch tok {
+	case 0:
 		return metadata.MD{}
+	case 9001:
+		return metadata.MD{"k9001": {"r\u00e9sum\u00e9 re\u00e7u"}} // non-ASCII UTF-8
+	case 9002:
+		return metadata.MD{"k9002": {"a\tb\nc"}} // control characters
+	case 9003:
+		return metadata.MD{"Upper-Key": {"v9003"}} // an upper-case key (metadata.Pairs would lower it)
+	case 9004:
+		return metadata.MD{"": {"v9004"}} // the empty key
+	case 9005:
+		// illegal key characters, DEL, an empty value (NOT invalid UTF-8: no protobuf transport can carry that in a string
+		// field - the rig's own wire panics in proto.Marshal -, which is a transport failure, another regime)
+		return metadata.MD{"k 9005!": {"\x7f"}, "k9005": {""}}
 	}
 	return metadata.Pairs(fmt.Sprintf("k%d", tok), fmt.Sprintf("v%d", tok))
 }
+
+var mdClasses = []int64{5, 9001, 9002, 9003, 9004, 9005}
 
 func (r *cwRig) unaryHandler(ctx context.Context, req []byte) ([]byte, bool, error) {
 	tok := tokenOf(req)
 	r.mu.Lock()
 	g := r.ugates[tok]
+	deaf := r.udeaf[tok]
+	r.urun++
 	r.mu.Unlock()
-	if g != nil {
+	defer func() {
+		r.mu.Lock()
+		r.urun--
+		r.mu.Unlock()
+	}()
+	if g != nil && deaf {
+		// a method that ignores its context: it outlives the call's deadline and answers when it is done
+		<-g
+	} else if g != nil {
 		select {
 		case <-g:
 		case <-ctx.Done():
@@ -428,6 +458,12 @@ func (r *cwRig) do(a Step) []string {
 		if a.Gate {
 			r.mu.Lock()
 			r.ugates[a.B] = make(chan struct{})
+			if a.Deaf {
+				if r.udeaf == nil {
+					r.udeaf = map[int64]bool{}
+				}
+				r.udeaf[a.B] = true
+			}
 			r.mu.Unlock()
 		}
 		k := fmt.Sprintf("(%d, 0)", c)
@@ -796,6 +832,17 @@ func (r *cwRig) do(a Step) []string {
 		if a.Env.Call >= r.nCli {
 			r.nCli = a.Env.Call + 1
 		}
+		if a.Gate && a.Env.Body != nil {
+			r.mu.Lock()
+			r.ugates[*a.Env.Body] = make(chan struct{})
+			if a.Deaf {
+				if r.udeaf == nil {
+					r.udeaf = map[int64]bool{}
+				}
+				r.udeaf[*a.Env.Body] = true
+			}
+			r.mu.Unlock()
+		}
 		e := a.Env.build(id, a.M)
 		if e.Header != nil {
 			e.Header.Source, e.Header.Destination = "src", "dst"
@@ -1074,6 +1121,7 @@ type cwSrvObs struct {
 	HEvents []string `json:"hev"`
 	HCtx    []string `json:"hctx"`  // "(c, done)" per started, not yet returned handler
 	HBusy   []string `json:"hbusy"` // calls whose handler is parked INSIDE an operation (RecvMsg, SendMsg, ...) at this point
+	URun    int      `json:"urun"`  // unary handler invocations that have not returned
 	SReg    int      `json:"sreg"`  // server stream registry size (-1: lock held, -2: no server)
 	WC      int      `json:"wc"`    // envelopes written so far by the client
 	WS      int      `json:"ws"`    // ... by the server
@@ -1110,6 +1158,7 @@ func (r *cwRig) snapshot() (stepObs, cwSrvObs) {
 		}
 	}
 	serveRet := r.serveRet
+	urun := r.urun
 	r.mu.Unlock()
 	sort.Strings(evs)
 	sort.Strings(pend)
@@ -1118,7 +1167,7 @@ func (r *cwRig) snapshot() (stepObs, cwSrvObs) {
 	if r.cc != nil {
 		co.Reg = r.cc.VerifNumHandlers()
 	}
-	so := cwSrvObs{HEvents: hevs, HCtx: hctx, HBusy: hbusy, SReg: -2, SrvG: srvg, Serve: serveRet}
+	so := cwSrvObs{HEvents: hevs, HCtx: hctx, HBusy: hbusy, URun: urun, SReg: -2, SrvG: srvg, Serve: serveRet}
 	if r.srv != nil {
 		cs := goat.VerifServerStreamCounts()
 		if len(cs) > 0 {
@@ -1141,8 +1190,8 @@ func (r *cwRig) snapshot() (stepObs, cwSrvObs) {
 }
 
 func sobsCoq(o cwSrvObs) string {
-	return fmt.Sprintf("(mkSO %s %s %s %d %d %d %d %d %s %s)", coqList(o.HEvents), coqList(o.HCtx), coqZ(int64(o.SReg)),
-		o.WC, o.WS, o.DC, o.DS, o.SrvG, coqBool(o.Serve), coqList(o.HBusy))
+	return fmt.Sprintf("(mkSO %s %s %s %d %d %d %d %d %s %s %d)", coqList(o.HEvents), coqList(o.HCtx), coqZ(int64(o.SReg)),
+		o.WC, o.WS, o.DC, o.DS, o.SrvG, coqBool(o.Serve), coqList(o.HBusy), o.URun)
 }
 
 func stepTag(a Step) string {
